@@ -210,7 +210,12 @@ def op_expand(w, s):
         src.ensure_left_canonical()
     bonds_in = list(src.bond_dims)
     try:
-        res = src.expand_bond_dimension(eh.obj, include_ex=False)
+        with expand_budget():
+            res = src.expand_bond_dimension(eh.obj, include_ex=False)
+    except StepBudgetExceeded:
+        w.stats.probes["expand_loop_budget_exceeded"] += 1
+        w.check_value(s["a"], {"C13", "C09"}, "C13.expand.input_changed", what="input of an abandoned expand_bond_dimension call")
+        return "skipped"
     except Exception as ex:
         w.stats.probes["expand_failed:" + type(ex).__name__] += 1
         return "skipped"
@@ -326,6 +331,31 @@ def full_rank_in_sector(obj, kind):
 
 class StepBudgetExceeded(Exception):
     pass
+
+
+class expand_budget:
+    """Deterministic iteration budget for expand_bond_dimension_general: its `while True` loop (grow the expander until the target
+    dimensions are reached) does not terminate for some inputs.  No property speaks about it, so the harness only makes sure that a run
+    ends reproducibly: more than `n` rounds raise StepBudgetExceeded (counted as a probe)."""
+
+    def __init__(self, n=25):
+        self.n = n
+
+    def __enter__(self):
+        import renormalizer.mps.mps as mm
+        self.mm, self.orig, self.count = mm, mm.compressed_sum, 0
+
+        def counted(*a, **k):
+            self.count += 1
+            if self.count > self.n:
+                raise StepBudgetExceeded(f"more than {self.n} rounds of the expander loop")
+            return self.orig(*a, **k)
+        mm.compressed_sum = counted
+        return self
+
+    def __exit__(self, *exc):
+        self.mm.compressed_sum = self.orig
+        return False
 
 
 _ivp_budget = [None]
